@@ -25,6 +25,9 @@ NA = {
 
 # property -> (category, technique, level text, level note, design ref)
 CLAIMED = {
+    "C19": ("model_checking", "relational symbolic execution of the real model (parameters p vs k*p, n_instances symbolic), decided by z3",
+            "SMT over unbounded symbols: the real run_model is executed symbolically with every energy/leak power replaced by k*p, every throughput by k*p, and n_instances by symbols; z3 shows every output column scales by the stated factor (k, 1/k, Nw*Ne, or 1) for all k>0, N>=1, tile shapes, rank bounds and costs, per mapping skeleton.",
+            "Per-mapping statement; the optimum over mappings additionally needs a scale-independent exact search (C01, not applicable). Differences are normalised with sympy.expand and a Max/Min positive-factor pull-out before the query.", "4/C19"),
     "C31": ("model_checking", "symbolic execution of the real model on Toll architectures vs loop-nest executor, decided by z3 (bounded SMT)",
             "Bounded SMT on Toll architectures (Toll between Main/GLB and between GLB/RF) with all 27 per-tensor direction assignments over the family: Toll write actions and occupancy are identically 0, Toll read actions equal the values crossing it in the configured direction(s) divided by values per action, for all trip counts in [1,3]/[1,4] and all costs.",
             "Model-level clauses only: the third clause (returned mappings) is covered only through run_model's guard, exercised on one two-Einsum mapping; otherwise as C05.", "4/C31"),
